@@ -288,12 +288,12 @@ func c09Call(in *c09Input) *c09Obs {
 				o.hasData, o.nErrs = false, len(pr1.Errors)
 				return o
 			}
-			if o.parseFailed || o.validFailed {
-				// a plan for a request that does not parse / validate: data would follow
-				o.shape = true
-				o.hasData, o.nErrs = true, 0
+			if o.parseFailed {
+				o.fail = "PlanCache.Get returned a plan for a request that does not parse"
 				return o
 			}
+			// (a plan for a request that does not validate is judged by what executing it returns:
+			// the normalising cache validates the rewritten document)
 			args := map[string]interface{}{}
 			for k, v := range in.Vars {
 				args[k] = v
